@@ -1,28 +1,66 @@
 #!/usr/bin/env python3
-"""Writes seeded/RESULTS.md from build/mutation-results.txt and the seeded metadata."""
+"""Writes seeded/RESULTS.md from build/mutation-results.txt (latest run of every seeded change), the first-run
+results kept in seeded/history/, and the seeded metadata."""
 import json, os, re
 V = os.path.dirname(os.path.dirname(os.path.abspath(__file__)))
-res = {}
-for line in open(os.path.join(V, "build", "mutation-results.txt")):
-    m = re.match(r"(C\d+-m\d+) check=(C\d+) rc=(\d+) ?(.*)", line.strip())
-    if m:
-        res.setdefault(m.group(1), {})[m.group(2)] = (int(m.group(3)), m.group(4))
-out = ["# Seeded changes and the checks that catch them", "",
-       "Each change was written by a sub-agent that saw only the property text, confirmed here in a scratch worktree",
-       "(suite passes with the change, demonstration fails with it, passes without), and run through `bin/check <id> quick`",
-       "with `tools/run_mutant.sh` (scratch worktree, `VERIF_REPO`). `caught` = the check exited 1 with a VIOLATION line.", "",
-       "| change | what it does | needs | own check | how it was reported | other checks run |", "|---|---|---|---|---|---|"]
+
+
+def load(path):
+    res = {}
+    if not os.path.exists(path):
+        return res
+    for line in open(path):
+        m = re.match(r"(C\d+-m\d+) check=(C\d+) rc=(\d+) ?(.*)", line.strip())
+        if m:
+            res.setdefault(m.group(1), {})[m.group(2)] = (int(m.group(3)), m.group(4))
+        m = re.match(r"(C\d+-m\d+): patch does not apply", line.strip())
+        if m:
+            res.setdefault(m.group(1), {})["_noapply"] = (2, "")
+    return res
+
+
+latest = load(os.path.join(V, "build", "mutation-results.txt"))
+first = {}
+for f in sorted(os.listdir(os.path.join(V, "seeded", "history"))):
+    for k, v in load(os.path.join(V, "seeded", "history", f)).items():
+        first.setdefault(k, v)
+
+
+def status(r, prop):
+    if r is None:
+        return "not run"
+    if "_noapply" in r and prop not in r:
+        return "patch did not apply"
+    own = r.get(prop)
+    if own is None:
+        return "not run"
+    return "caught" if own[0] == 1 else "MISSED"
+
+
+rows = []
+tot = {"first_caught": 0, "first_missed": 0, "now_caught": 0, "now_missed": 0, "n": 0}
 for d in sorted(os.listdir(os.path.join(V, "seeded"))):
     mp = os.path.join(V, "seeded", d, "meta.json")
     if not os.path.exists(mp):
         continue
     m = json.load(open(mp))
     prop = m["property"]
-    r = res.get(d, {})
-    own = r.get(prop)
-    status = "not run" if own is None else ("caught" if own[0] == 1 else "MISSED")
-    how = "" if own is None else re.sub(r"replay=\S+", "", own[1])[:110].replace("|", "/")
-    others = ", ".join("%s:%s" % (k, "caught" if v[0] == 1 else "quiet") for k, v in sorted(r.items()) if k != prop)
-    out.append("| %s | %s | %s | %s | %s | %s |" % (d, m.get("summary", "")[:120].replace("|", "/"), m.get("needs", "")[:110].replace("|", "/"), status, how, others))
+    f, l = status(first.get(d), prop), status(latest.get(d), prop)
+    tot["n"] += 1
+    tot["first_caught"] += f == "caught"
+    tot["first_missed"] += f == "MISSED"
+    tot["now_caught"] += l == "caught"
+    tot["now_missed"] += l == "MISSED"
+    own = (latest.get(d) or {}).get(prop)
+    how = "" if own is None else re.sub(r"replay=\S+", "", own[1])[:120].replace("|", "/")
+    rows.append("| %s | %s | %s | %s | %s | %s |" % (d, m.get("summary", "")[:130].replace("|", "/"), m.get("needs", "")[:110].replace("|", "/"), f, l, how))
+out = ["# Seeded changes and the checks that catch them", "",
+       "Each change was written by a sub-agent that saw only the property text, confirmed here in a scratch worktree",
+       "(suite passes with the change, demonstration fails with it, passes without), and run through `bin/check <id> quick`",
+       "of its own property with `tools/run_mutant.sh` (scratch worktree, `VERIF_REPO`). `caught` = the check exited 1 with a",
+       "VIOLATION line. *first run* = the result when the change was first tried, before the machinery was strengthened",
+       "because of it (kept in `seeded/history/`); *now* = the latest run.", "",
+       "**%d changes; first run: %d caught, %d missed; now: %d caught, %d missed.**" % (tot["n"], tot["first_caught"], tot["first_missed"], tot["now_caught"], tot["now_missed"]), "",
+       "| change | what it does | needs | first run | now | how it is reported now |", "|---|---|---|---|---|---|"] + rows
 open(os.path.join(V, "seeded", "RESULTS.md"), "w").write("\n".join(out) + "\n")
-print("\n".join(out[-45:]))
+print("\n".join(out[8:9]))
